@@ -301,3 +301,5 @@ func (w *pvWorker) checkSet(s *env.State, prevRecorded []providertypes.Consensus
 	}
 	return vs
 }
+
+func (w *pvWorker) ProviderForTier2() *env.Provider { return w.p }
